@@ -104,6 +104,14 @@ def _k2tie(seed):
     return Driver("k2tie", [np.array([[3.0], [2.0], [1.0], [0.0], [0.0], [-1.0], [-2.0], [-3.0]])], W=1, K=2, beta=0.0, m=2)
 
 
+@driver("k2flat")
+def _k2flat(seed):
+    # a flat-lined sensor: the second sensor is constant over the first regime (sample variance exactly 0 there)
+    s = two_regime_series(9, 2, 13)
+    s[:5, 1] = 1.5
+    return Driver("k2flat", [s], W=1, K=2, beta=1.0, m=2, biased=True)
+
+
 @driver("k2one")
 def _k2one(seed):
     # ONE regime, two clusters: clusters keep emptying and being refilled (repopulation in several rounds)
